@@ -8,13 +8,15 @@ ap = argparse.ArgumentParser()
 ap.add_argument("name"); ap.add_argument("prop"); ap.add_argument("patch"); ap.add_argument("demo"); ap.add_argument("notes")
 ap.add_argument("--also", default=""); ap.add_argument("--source", default="independent sub-agent given only the property text and a scratch worktree")
 a = ap.parse_args()
-cmd = ["/venv/bin/python", "/verif/harness/try_mutant.py", a.prop, a.patch, "--demo", a.demo] + (["--also", a.also] if a.also else [])
+cmd = ["/venv/bin/python", "/verif/harness/try_mutant.py", a.prop, a.patch] + (["--demo", a.demo] if a.demo != "-" else []) + (["--also", a.also] if a.also else [])
 out = subprocess.run(cmd, text=True, stdout=subprocess.PIPE).stdout
 res = json.loads(out[out.index("{"):])
-ok = res.get("applies") and res.get("tests_pass") and res.get("demo_clean_rc") == 0 and res.get("demo_mutant_rc") not in (0, None)
+ok = res.get("applies") and res.get("tests_pass") and (a.demo == "-" or (res.get("demo_clean_rc") == 0 and res.get("demo_mutant_rc") not in (0, None)))
 d = "/verif/seeded/" + a.name
 os.makedirs(d, exist_ok=True)
-shutil.copy(a.patch, d + "/patch.diff"); shutil.copy(a.demo, d + "/demo.py")
+shutil.copy(a.patch, d + "/patch.diff")
+if a.demo != "-":
+    shutil.copy(a.demo, d + "/demo.py")
 meta = dict(name=a.name, breaks_property=a.prop, source=a.source,
             needs_to_manifest=open(a.notes).read() if os.path.exists(a.notes) else a.notes,
             confirmed=dict(base_commit=res.get("worktree_commit"), applies=res.get("applies"), test_suite=res.get("tests"),
